@@ -269,7 +269,7 @@ def range_keys(ftype):
 def gen_range(rng, ftype, f, m, p_range=0.4):
     """optionally add a model range narrower than the feature's; returns (lo, hi) truth"""
     kmin, kmax = range_keys(ftype)
-    if rng.random() > p_range:
+    if rng.random() > p_range or EXTRA['no_ranges']:
         return None
     if ftype == 'subducting plate':
         th = f['_thickness']
@@ -402,7 +402,30 @@ def gen_ridges(rng, ctx, f):
     return [[[rx, ya], [rx, ym]], [[rx2, ym], [rx2, yb]]]
 
 
+# knobs for model types only some checks want (set by the check around its generation, default off so that the
+# random streams of the other checks do not change)
+EXTRA = {'water': 0.0, 'no_ranges': False}
+
+
+def gen_water_model(rng, ftype, f, ncomp):
+    lith = rng.choice(['sediment', 'MORB', 'gabbro', 'peridotite'])
+    m = {'model': 'tian water content', 'compositions': [rng.randrange(ncomp)], 'lithology': lith,
+         'initial water content': num(rng, 0.5, 5.0), 'cutoff pressure': {'sediment': 1, 'MORB': 16, 'gabbro': 26, 'peridotite': 10}[lith]}
+    if ftype == 'subducting plate':
+        m['density'] = num(rng, 2800, 3400)
+        m['min distance slab top'] = 0.0
+        m['max distance slab top'] = (1.0 if EXTRA['no_ranges'] else num(rng, 0.2, 1.0)) * f['_thickness']
+    else:
+        m['min depth'] = f['_d0']
+        m['max depth'] = num(rng, 0.3, 1.0) * (f['_d1'] - f['_d0']) + f['_d0']
+    if rng.random() < 0.3:
+        m['operation'] = rng.choice(['replace', 'replace defined only', 'add'])
+    return m
+
+
 def gen_composition_model(rng, ctx, ftype, f, ncomp, allow=None, p_ops=0.5):
+    if EXTRA['water'] > 0 and ftype in ('oceanic plate', 'subducting plate') and allow is None and rng.random() < EXTRA['water']:
+        return gen_water_model(rng, ftype, f, ncomp)
     choices = {'continental plate': ['uniform'], 'mantle layer': ['uniform'], 'oceanic plate': ['uniform'],
                'plume': ['uniform'], 'subducting plate': ['uniform', 'smooth'], 'fault': ['uniform', 'smooth']}[ftype]
     if allow is not None:
